@@ -88,7 +88,7 @@ class RRELBase:
             intermediate matches. The returned obj can be
             Postponed.
         """
-        if not allowed(obj, lookup_list, self):  # also adjusts visited objs
+        if not first_element and not allowed(obj, lookup_list, self):
             return  # recursion stopper
 
         obj, lookup_list, matched_path = self.apply(
@@ -264,7 +264,7 @@ class RRELBrackets(RRELBase):
     def get_next_matches(
         self, obj, lookup_list, allowed, matched_path, first_element=False
     ):
-        if not allowed(obj, lookup_list, self):  # also adjusts visited objs
+        if not first_element and not allowed(obj, lookup_list, self):
             return  # recursion stopper
         yield from self.seq.get_next_matches(
             obj, lookup_list, allowed, matched_path, first_element
@@ -327,7 +327,7 @@ class RRELSequence(RRELBase):
     def get_next_matches(
         self, obj, lookup_list, allowed, matched_path, first_element=False
     ):
-        if not allowed(obj, lookup_list, self):  # also adjusts visited objs
+        if not first_element and not allowed(obj, lookup_list, self):
             return  # recursion stopper
         for ip in self.paths:
             yield from ip.get_next_matches(
@@ -360,7 +360,7 @@ class RRELZeroOrMore(RRELBase):
 
         def get_from_zero_or_more(obj, lookup_list, matched_path, first_element=False):
             assert self.start_locally() or self.start_at_root()  # or, not xor
-            if not allowed(obj, lookup_list, self):  # also adjusts visited objs
+            if not first_element and not allowed(obj, lookup_list, self):
                 return  # recursion stopper
             if first_element:
                 if self.start_locally():
@@ -600,6 +600,10 @@ def find_object_with_path(obj, lookup_list, rrel_tree, obj_cls=None, split_strin
         lookup_list = list(filter(lambda x: len(x) > 0, lookup_list))
     visited = [set() for _ in range(len(lookup_list) + 1)]
 
+    # `allowed` also records visited objects. It is not consulted while
+    # `first_element` is set: the start object is only a stand-in there (a
+    # navigation switches to the model root), so recording it would prune the
+    # start object's own subtree later on.
     def allowed(obj, lookup_list, e):
         if (id(obj), id(e)) in visited[len(lookup_list)]:
             return False
